@@ -1,7 +1,9 @@
 SPECIFICATION BSpec
 CONSTANTS
   MaxParked = 2
+  NoLock = NoLock
   LockIds = {a, b, c}
 INVARIANTS
   C14_Balance
+  C14_CallbackCanFinish
 CHECK_DEADLOCK FALSE
